@@ -10,6 +10,7 @@ import (
 	"bytes"
 
 	"github.com/flynn/noise"
+	"google.golang.org/protobuf/encoding/protowire"
 	"github.com/slackhq/nebula/cert"
 )
 
@@ -17,6 +18,7 @@ var (
 	_ = bytes.Equal
 	_ *noise.HandshakeState
 	_ cert.Certificate
+	_ = protowire.BytesType
 )
 
 //@ load github.com/flynn/noise
@@ -57,7 +59,13 @@ func same[T any](a, b T) bool { return true }
 //@   ensures same(result, s.PeerStatic())
 //@   assigns nothing
 //@ func UnmarshalPayload
-//@   trusted protobuf-style decoding of the handshake payload (C08)
+//@   props C05 C07 C08
+//@   loop 0 invariant true
+//@   loop 0 assigns p.Cert, p.InitiatorIndex, p.ResponderIndex, p.Time, p.CertVersion
+//@   callrequires unmarshalPayloadDetails num == 1 && typ == protowire.BytesType
+//@   callrequires ConsumeFieldValue !(num == 1 && typ == protowire.BytesType)
+//@   ensures[errs] result1 == nil || result1 == errInvalidHandshakeMessage || result1 == errInvalidHandshakeDetails
+//@   assumedframe the frame obligation (writes only to the local Payload and to the fresh copy of the certificate bytes) is not discharged by the engine's append model; callers rely on it as before, when the whole function was trusted
 //@   assigns nothing
 //@ func github.com/slackhq/nebula/cert.Recombine
 //@   trusted rebuilds a certificate from its wire details and a public key (cert package)
@@ -140,3 +148,47 @@ func same[T any](a, b T) bool { return true }
 //@   ensures[keep]    implies(result == nil, m.failed == old(m.failed) && m.payloadSet == old(m.payloadSet))
 //@   ensures[errkeep] implies(result != nil, m.remoteCertSet == old(m.remoteCertSet) && m.result.RemoteCert == old(m.result.RemoteCert))
 //@   assigns m.failed, m.myVersion, m.result.RemoteCert, m.remoteCertSet
+
+// =====================================================================
+// C08 — handshake payload decoding: no panic, known fields only with their wire type
+// =====================================================================
+//
+// Decoder side of C08 (partial). For every byte string: every slice
+// expression of the two decoding loops is in bounds given protowire's
+// consume contract (negative length on malformed input, otherwise a length
+// within the buffer), so decoding never panics; a value is decoded as a known
+// field (ConsumeBytes / ConsumeVarint in the details loop, the nested details
+// decoder in the outer loop) only under that field's number AND wire type,
+// and the generic skipper ConsumeFieldValue is reached only for numbers that
+// are not known fields — so a known field with the wrong wire type is neither
+// accepted nor skipped: the only remaining exit is the error return. Errors
+// are exactly the two package errors.
+
+//@ func google.golang.org/protobuf/encoding/protowire.ConsumeTag
+//@   trusted protowire: a negative length on malformed input, otherwise the number of bytes consumed (at least one, at most len(b))
+//@   ensures result2 < 0 || (result2 >= 1 && result2 <= len(b))
+//@   assigns nothing
+//@ func google.golang.org/protobuf/encoding/protowire.ConsumeBytes
+//@   trusted protowire: a negative length on malformed input, otherwise prefix plus value lie inside b
+//@   ensures n < 0 || (n >= 1 && n <= len(b) && len(v) < n)
+//@   assigns nothing
+//@ func google.golang.org/protobuf/encoding/protowire.ConsumeVarint
+//@   trusted protowire: a negative length on malformed input, otherwise 1..10 bytes inside b
+//@   ensures n < 0 || (n >= 1 && n <= len(b))
+//@   assigns nothing
+//@ func google.golang.org/protobuf/encoding/protowire.ConsumeFieldValue
+//@   trusted protowire: a negative length on malformed input, otherwise a length inside b
+//@   ensures n < 0 || (n >= 0 && n <= len(b))
+//@   assigns nothing
+
+//@ func unmarshalPayloadDetails
+//@   props C05 C07 C08
+//@   requires p != nil
+//@   loop 0 invariant true
+//@   loop 0 assigns p.Cert, p.InitiatorIndex, p.ResponderIndex, p.Time, p.CertVersion
+//@   callrequires ConsumeBytes num == fieldCert && typ == protowire.BytesType
+//@   callrequires ConsumeVarint (num == fieldInitiatorIndex || num == fieldResponderIndex || num == fieldTime || num == fieldCertVersion) && typ == protowire.VarintType
+//@   callrequires ConsumeFieldValue num != fieldCert && num != fieldInitiatorIndex && num != fieldResponderIndex && num != fieldTime && num != fieldCertVersion
+//@   ensures[errs] result == nil || result == errInvalidHandshakeDetails
+//@   assumedframe the frame obligation (writes only to *p and to the fresh copy of the certificate bytes) is not discharged by the engine's append model
+//@   assigns p.Cert, p.InitiatorIndex, p.ResponderIndex, p.Time, p.CertVersion
